@@ -107,6 +107,14 @@ def perturb_prior(rng, L, root):
             with open(os.path.join(root, 'Manifest'), 'wb') as f:
                 f.write('\n'.join(lines).encode('utf8'))
             out.append({'prior': 'manifest_also_data', 'p': lines[i].split(' ')[1]})
+    plain_subs = [m for m in sorted(L.mf) if m != 'Manifest' and fm.compression_of(m) == 'plain'
+                  and os.path.basename(m) == 'Manifest' and os.path.isfile(os.path.join(root, m))]
+    if plain_subs and rng.random() < 0.06:
+        # a sub-Manifest holding an entry for itself (DATA or MANIFEST): no such entry can be right
+        m = rng.choice(plain_subs)
+        with open(os.path.join(root, m), 'ab') as f:
+            f.write(rng.choice([b'DATA Manifest 0\n', b'MANIFEST Manifest 5 MD5 00\n']))
+        out.append({'prior': 'sub_lists_itself', 'p': m})
     if rng.random() < 0.06 and os.path.isfile(os.path.join(root, 'Manifest')):
         # the top-level Manifest lists itself: no entry for it can ever be right, the update has to drop it
         with open(os.path.join(root, 'Manifest'), 'ab') as f:
